@@ -132,7 +132,10 @@ class BehavioralRTLIRTypeCheckVisitorL2( BehavioralRTLIRTypeCheckVisitorL1 ):
       # rt.Wire here instead of rt.NetWire
       target.Type = rt.Wire( rhs_type.get_dtype() )
       s.tmpvars[ tmpvar_id ] = rt.Wire( rhs_type.get_dtype() )
-      s.tmpvars_is_explicit[ tmpvar_id ] = node.value._is_explicit
+      # Once a temporary variable has held an explicitly sized value it must
+      # not be re-interpreted any more
+      s.tmpvars_is_explicit[ tmpvar_id ] = node.value._is_explicit or \
+                                           s.tmpvars_is_explicit.get( tmpvar_id, False )
 
     else:
       # non-temporary assignment is an L1 thing
